@@ -9,6 +9,7 @@ import OG.C20.Model
 import OG.C20.Skip
 import OG.C20.SkipIdx
 import OG.C20.TimeCluster
+import OG.C20.SkipText
 
 namespace OG.C20
 
@@ -101,7 +102,8 @@ def showScan : Option (List (Nat × Nat)) → String
   | none => "err"
 
 def parseBOp : String → Option BOp
-  | "and" => some .and | "or" => some .or | "cmp" => some .cmp | "cmpns" => some .cmpns | "bad" => some .bad
+  | "and" => some .and | "or" => some .or | "cmp" => some .cmp | "cmpo" => some .cmpo
+  | "cmpns" => some .cmpns | "bad" => some .bad
   | _ => none
 
 partial def parseSExpr : List String → Option (SExpr Nat × List String)
@@ -131,7 +133,8 @@ partial def parseBCond : List String → Option (BCond × List String)
     let f ← parseField f
     let op ← parseCmpK op
     let v ← hexBytes v
-    some (.bin .cmp (.var f) (.lit ⟨op, v⟩), rest)
+    -- `=` and match-phrase are comparisons the readers look up; the others are not
+    some (.bin (if op == .mp || op == .eq then .cmp else .cmpo) (.var f) (.lit ⟨op, v⟩), rest)
   | "P" :: rest => do
     let (e, rest) ← parseBCond rest
     some (.paren e, rest)
@@ -276,6 +279,25 @@ def stepSkip : List String → Option String
     let k ← parseKind kind
     if !rest.isEmpty || rpf == 0 then none
     else some (runRel wsp [⟨k, k.stdName, List.range nIdx⟩] (List.range (nIdx + 1)) c segs (minMarks rpf minRows) rgs)
+  | "text" :: rpf :: minRows :: rgs :: nIdx :: segs :: cond => do
+    -- text index over the columns 0..nIdx-1 (split set CONTENT_SPLITTER), unindexed column x
+    let rpf ← rpf.toNat?
+    let minRows ← minRows.toNat?
+    let rgs ← parseRanges rgs
+    let nIdx ← nIdx.toNat?
+    let segs ← (segs.splitOn "|").mapM parseSeg
+    let (c, rest) ← parseBCond cond
+    if !rest.isEmpty || rpf == 0 then none
+    else
+      let vars := varsOf (toRPN c)
+      let schema := vars.filter (· < nIdx)
+      if vars.contains fieldLog then some "err create"      -- `__log___` without a full-text index
+      else if schema.isEmpty then some (showRanges rgs)
+      else if (convElems (fun n => schema.contains n) (toRPN c)).isNone then some "err create"
+      else
+        match skipScan (minMarks rpf minRows) (answerOf segs (txMayBe contentSplit schema c)) rgs with
+        | some rs => some (showRanges rs)
+        | none => some "err panic"
   | ["tcw", d, tmin, tmax, ts] => do
     let d ← d.toInt?
     let tmin ← tmin.toInt?
